@@ -73,6 +73,18 @@ def gen_case(rng):
         else:
             terms.append({"kind": "call", "mid": mid, "opener": "each", "pat": {"matcher": rng.randrange(256), "dbg": fresh(), "ops": [("dfl",)]}})
     rng.shuffle(terms)
+    if rng.random() < 0.3:
+        # a response CHAIN that begins with the default body (`applies_default_impl().n_times(k).then().returns(v)`), and two overlapping
+        # clauses on one provided method of which the FIRST says applies_default_impl() (declaration order decides: the body runs)
+        mid = rng.choice([14, 15, 19, 2, 3, 16, 17])
+        if mid not in provided:
+            if rng.random() < 0.5:
+                terms.append({"kind": "call", "mid": mid, "opener": "each",
+                              "pat": {"matcher": 255, "dbg": fresh(), "ops": [("dfl",), ("n", rng.randint(1, 2)), ("then",), ("ret", fresh())]}})
+            else:
+                terms.append({"kind": "call", "mid": mid, "opener": "each", "pat": {"matcher": rng.choice([255, 255, 15]), "dbg": fresh(), "ops": [("dfl",)]}})
+                terms.append({"kind": "call", "mid": mid, "opener": "each", "pat": {"matcher": 255, "dbg": fresh(), "ops": [("ret", fresh())]}})
+            provided = provided + [mid, mid]
     evs = []
     live = [0]
     n = 1
@@ -128,6 +140,12 @@ def directed_cases():
                     for x in sorted(live, reverse=True):
                         evs.append({"base": ("drop" if x else ("verify", "report", "drop")[(a + m) % 3], x)})
                     out.append({"partial": False, "terms": terms, "events": evs, "_directed": True})
+    # a response chain that BEGINS with the default body: the first call runs it, the second gets the configured value
+    for m in (14, 15, 19, 2):
+        terms = [{"kind": "call", "mid": 10, "opener": "each", "pat": {"matcher": 255, "dbg": 1, "ops": [("ret", 1)]}},
+                 {"kind": "call", "mid": m, "opener": "each", "pat": {"matcher": 255, "dbg": 2, "ops": [("dfl",), ("n", 1), ("then",), ("ret", 9)]}}]
+        out.append({"partial": False, "terms": terms, "events": [{"base": ("call", 0, m, 1)}, {"base": ("call", 0, m, 1)}, {"base": ("call", 0, m, 1)},
+                                                                 {"base": ("verify", 0)}], "_directed": True})
     # the instance keeps its delegation helper (a clone of itself) cached after a `&self` / `&mut self` / Pin provided call: ending it
     # with report() / verify() / drop, every expectation met, must be silent - the helper is the instance's own, not an escaped clone
     for m in (14, 15, 19):
